@@ -110,7 +110,8 @@ class World:
             entries = entries + [("offer", 0x4344, 1 + self.raising_n % 0xFFF0, 1, 0xFFFFFF, 0, (), ())]
         elif ent:
             entries = entries + [("offer", 0x4343, 1, 1, 3 if ent == 1 else 0, 0, (), ())]  # 1: offer, 2: stop-offer
-        data = refcodec.sd_message(sid, entries, reboot=bool(flag), unicast=bool(uflag))
+        client = letter[7] if len(letter) > 7 else 0  # the SOME/IP client id of the message: not part of the comparison
+        data = refcodec.sd_message(sid, entries, reboot=bool(flag), unicast=bool(uflag), client=client)
         prefix = letter[5] if len(letter) > 5 else 0
         if prefix == 1:
             # an SD message whose payload does not decode (entries array longer than the payload) in front, same datagram
@@ -267,6 +268,9 @@ def check(ctx):
         ("one-sender-datagram-neighbours-closure", [l + (1, p) for l in letters("P", (0, 1)) for p in (0, 1, 2, 3, 4)], 10 ** 6, True),
         # the messages carry an offer / a stop-offer of a watched service (what they say must not touch the comparison)
         ("one-sender-offers-and-stopoffers-closure", [l + (1, 0, e) for l in letters("P", (0, 1)) for e in (0, 1, 2, 3)], 10 ** 6, False),
+        # the messages carry different SOME/IP client ids (a sender whose client id changes, e.g. with a restart): only
+        # the session id and the flag are compared
+        ("one-sender-client-ids-closure", [l + (1, 0, 0, c) for l in letters("P", (0, 1)) for c in (0, 1, 2, 0xFFFF)], 10 ** 6, False),
         # the receiving endpoint is started late, or stopped and started again, between messages
         ("one-sender-endpoint-lifecycle-closure", letters("P", (0, 1)) + [("@", 0, 0, 0)], 10 ** 6, False),
     ]
